@@ -205,6 +205,12 @@ pub fn boundary_values() -> Vec<V> {
         (-8_334_601_228_800 + 200 * 86400, 0, 0),
         (8_210_266_876_799 - 40 * 86400, 0, -86399),
         (8_210_266_876_799 - 3 * 86400, 999_999_999, -43200),
+        // the local time itself outside chrono's range: the last instant seen from east of Greenwich, the first from west
+        (8_210_266_876_799, 999_999_999, 3600),
+        (8_210_266_876_799, 0, 86399),
+        (-8_334_601_228_800, 0, -3600),
+        (-8_334_601_228_800, 1, -86399),
+        (8_210_266_876_799 - 1800, 0, 3600),
     ] {
         v.push(V::Ts(s, n, o));
     }
